@@ -753,6 +753,21 @@ def thread_jumps(mirj):
     return n
 
 
+def thread_fn(prog, f):
+    """jump threading and duplication of small forwarding joins on one body (also bodies outside prog.fns, e.g. the
+    pre-transform MIR of an async fn)"""
+    from . import mir
+
+    rec = copy.deepcopy(f.rec)
+    k = 0
+    for _ in range(4):
+        k1 = thread_jumps(rec["mir"]) + dup_small_joins(rec["mir"]) + split_tuples(rec["mir"])
+        k += k1
+        if not k1:
+            break
+    return mir.Fn(rec, prog) if k else f
+
+
 def thread_all(prog):
     """jump threading and duplication of small forwarding joins, on every body of the program"""
     from . import mir
@@ -781,7 +796,7 @@ def thread_all(prog):
 
 def _locals_read(node, acc):
     if isinstance(node, dict):
-        if node.get("k") in ("copy", "move") and "place" in node:
+        if node.get("k") in ("copy", "move", "ref", "rawptr", "addrof", "discriminant", "len") and isinstance(node.get("place"), dict) and "local" in node["place"]:
             acc.add(node["place"]["local"])
         for v in node.values():
             _locals_read(v, acc)
